@@ -189,6 +189,10 @@ package parse
 
 //@ func parse.lexCommentOpen
 //@   implements functype:parse.stateFn
+// C03: a comment is exactly three tokens - opener, a (possibly empty) text, closer - and ends at the FIRST closing
+// delimiter after the opener: nothing that follows a comment is swallowed by it
+//@   asserts toks: result != nil ==> sentcount(l.tokens) == old(sentcount(l.tokens)) + 3 && sent(l.tokens, old(sentcount(l.tokens)), "token").tokenType == tokenCommentOpen && sent(l.tokens, old(sentcount(l.tokens)) + 1, "token").tokenType == tokenText && sent(l.tokens, old(sentcount(l.tokens)) + 2, "token").tokenType == tokenCommentClose
+//@   at "strings.Index(l.input[l.pos:], delimCloseComment)" first: l.pos >= old(l.pos) + 2
 
 //@ func parse.lexTagOpen
 //@   implements functype:parse.stateFn
